@@ -17,7 +17,7 @@
 (***************************************************************************)
 EXTENDS Integers, Sequences, FiniteSets, TLC
 
-CONSTANTS MaxScales, MaxLen, ShareListsOnCopy, Doms, Rngs, NiceMs
+CONSTANTS MaxScales, MaxLen, ShareListsOnCopy, KeepCallersList, Doms, Rngs, NiceMs
 
 VARIABLES scales,   \* sequence of [dom, rng : cell ids, clamp, snap : <<domain content, range content, clamp>>]
           cells,    \* sequence of contents (cell id = index)
@@ -38,6 +38,15 @@ Log(a, i, x) == h' = Append(h, [a |-> a, i |-> i, x |-> x])
 Domain(s, v) == /\ cells' = Append(cells, <<v>>)
                 /\ scales' = [scales EXCEPT ![s] = Rescaled([@ EXCEPT !.dom = Len(cells) + 1], cells')]
                 /\ actor' = s /\ Log("D", s, v)
+\* s.domain(t.domain()): the argument is the very list another scale reports.  The setter builds a NEW list from it
+\* (KeepCallersList = FALSE); keeping the caller's object (TRUE) would alias the two scales' domains
+DomainFrom(s, t) == /\ s # t
+                    /\ IF KeepCallersList
+                       THEN /\ cells' = cells
+                            /\ scales' = [scales EXCEPT ![s] = Rescaled([@ EXCEPT !.dom = scales[t].dom], cells)]
+                       ELSE /\ cells' = Append(cells, cells[scales[t].dom])
+                            /\ scales' = [scales EXCEPT ![s] = Rescaled([@ EXCEPT !.dom = Len(cells) + 1], cells')]
+                    /\ actor' = s /\ Log("F", s, ToString(t))
 Range(s, v) == /\ cells' = Append(cells, <<v>>)
                /\ scales' = [scales EXCEPT ![s] = Rescaled([@ EXCEPT !.rng = Len(cells) + 1], cells')]
                /\ actor' = s /\ Log("R", s, v)
@@ -62,6 +71,7 @@ Next == /\ Len(h) < MaxLen
              \/ \E b \in {TRUE} : Clamp(s, b)
              \/ \E m \in NiceMs : Nice(s, m)
              \/ Copy(s)
+             \/ \E t \in 1..NS : DomainFrom(s, t)
 Spec == Init /\ [][Next]_vars
 
 \* ---- what a caller observes of scale s
